@@ -110,6 +110,11 @@ pub struct Alpha<B: Bind> {
 }
 
 pub fn v(out: &mut CaseOut, ty: &str, op: &str, kind: &str, what: String, detail: Value) {
+    // one witness per finding key and case keeps room (vcore caps a case at 16) for other keys
+    let key = format!("{ty}:{op}:{kind}");
+    if out.viols.iter().any(|x| x.finding_key == key) {
+        return;
+    }
     out.viol(Viol::new(format!("{ty}:{op}:{kind}"), format!("{ty} {op}: {what}"), detail));
 }
 
@@ -155,6 +160,42 @@ pub fn cofactor_points(cv: &MCurve, rng: &mut ChaCha20Rng) -> Vec<(String, MP)> 
         }
     }
     out
+}
+
+/// Validates the inversion-free ladder against the affine reference law on one curve: tasks of
+/// the group `model-self-check`; a disagreement panics inside the harness (machinery error, no
+/// verdict), because subgroup-membership verdicts of the whole run rest on the ladder.
+pub fn ladder_self_check_tasks(t: &mut Tasks, seed: u64, name: &'static str, cv: MCurve) {
+    let cv = Arc::new(cv);
+    for idx in 0..3u32 {
+        let cv = cv.clone();
+        t.push("model-self-check", format!("{name}:ladder-vs-affine-law[{idx}]"), move || {
+            let mut rng = vcore::rng_for(seed, &format!("c11-ladder-{name}-{idx}"));
+            let p = loop {
+                if let Some(p) = cv.point_with(&rand_fe(&cv, &mut rng)) {
+                    break p;
+                }
+            };
+            let mut out = CaseOut::batch();
+            for k in [cv.r.clone(), &cv.r - 1u32, big::random_below(&mut rng, &cv.r), big::bu(0), big::bu(1), big::bu(2), big::bu(3)] {
+                assert!(cv.mul_fast(&p, &k) == cv.mul(&p, &k), "{name}: ladder != affine law for k = {k}");
+                out.eval("ladder==affine-law", true);
+            }
+            assert!(cv.in_subgroup(&p) == cv.in_subgroup_ref(&p), "{name}: subgroup verdicts differ");
+            // small-order / cofactor-group inputs exercise the doubling and P + (-P) branches
+            let rp = cv.mul(&p, &cv.r);
+            for k in [big::bu(2), big::bu(3), big::bu(8), big::bu(24)] {
+                assert!(cv.mul_fast(&rp, &k) == cv.mul(&rp, &k), "{name}: ladder != affine law on the cofactor component");
+                out.eval("ladder==affine-law", true);
+            }
+            let g = cv.mul(&p, &big::bu(8));
+            let inv = cv.neg(&g);
+            assert!(cv.is_id(&cv.add(&g, &inv)), "{name}: P + (-P) != O in the affine law");
+            out.eval("affine-law:inverse", true);
+            out.sample = Some(json!({"curve": name, "point": p.json()}));
+            out
+        });
+    }
 }
 
 pub fn alphabet<B: Bind>(cx: &mut Ctx) -> Arc<Alpha<B>> {
@@ -234,6 +275,10 @@ fn pair_class<B: Bind>(cv: &MCurve, a: &Pt<B>, b: &Pt<B>) -> String {
 
 /// Runs `f`, maps its result to the model and compares with `expect`.
 fn check<B: Bind>(out: &mut CaseOut, op: &str, variant: &str, expect: &MP, ctx: &dyn Fn() -> Value, f: impl FnOnce() -> B::G) -> bool {
+    check_k::<B>(out, op, "wrong-result", variant, expect, ctx, f)
+}
+
+fn check_k<B: Bind>(out: &mut CaseOut, op: &str, kind: &str, variant: &str, expect: &MP, ctx: &dyn Fn() -> Value, f: impl FnOnce() -> B::G) -> bool {
     match catch(|| B::to_m(&f())) {
         Err(p) => {
             v(out, B::NAME, op, "panic", format!("`{variant}` panicked: {p}"), json!({"variant": variant, "input": ctx()}));
@@ -244,7 +289,7 @@ fn check<B: Bind>(out: &mut CaseOut, op: &str, variant: &str, expect: &MP, ctx: 
                 out,
                 B::NAME,
                 op,
-                "wrong-result",
+                kind,
                 format!("`{variant}` disagrees with the affine group law"),
                 json!({"variant": variant, "input": ctx(), "got": m.json(), "expected": expect.json()}),
             );
@@ -402,24 +447,29 @@ pub fn group_tasks<B: Bind>(t: &mut Tasks, al: &Arc<Alpha<B>>) {
             for pb in &a.pts {
                 let same = pa.m == pb.m;
                 let r = catch(|| {
-                    let mut bad = vec![];
+                    let (mut bad_eq, mut bad_ct) = (vec![], vec![]);
                     for (na, x) in reps(pa) {
                         for (nb, y) in reps(pb) {
                             if (x == y) != same {
-                                bad.push(format!("`==` on {na} / {nb}"));
+                                bad_eq.push(format!("{na} == {nb}"));
                             }
                             if B::ct_eq(&x, &y).unwrap_or(same) != same {
-                                bad.push(format!("`ct_eq` on {na} / {nb}"));
+                                bad_ct.push(format!("{na} ct_eq {nb}"));
                             }
                         }
                     }
-                    bad
+                    (bad_eq, bad_ct)
                 });
                 out.eval(if same { "eq:same-point" } else { "eq:different" }, !cv.is_id(&pa.m) && !cv.is_id(&pb.m));
                 match r {
                     Err(e) => v(&mut out, ty, "eq", "panic", format!("panicked: {e}"), json!({"P": pa.name, "Q": pb.name})),
-                    Ok(bad) if !bad.is_empty() => v(&mut out, ty, "eq", "wrong-result", format!("equality disagrees with the model ({same}): {}", bad.join(", ")), json!({"P": pa.name, "Q": pb.name, "P_model": pa.m.json(), "Q_model": pb.m.json(), "failing": bad})),
-                    _ => {}
+                    Ok((bad_eq, bad_ct)) => {
+                        for (op, bad) in [("eq", bad_eq), ("ct_eq", bad_ct)] {
+                            if !bad.is_empty() {
+                                v(&mut out, ty, op, "wrong-result", format!("{op} disagrees with the model (points equal: {same}) on representations {}", bad.join(", ")), json!({"P": pa.name, "Q": pb.name, "P_model": pa.m.json(), "Q_model": pb.m.json(), "failing": bad, "representations": "P as in the alphabet; (P+G)-G and (P-G)+G are the same point with other projective coordinates"}));
+                            }
+                        }
+                    }
                 }
                 let ctx = || json!({"P": pa.name, "Q": pb.name});
                 out.eval("conditional_select", !same);
@@ -477,9 +527,12 @@ pub fn group_tasks<B: Bind>(t: &mut Tasks, al: &Arc<Alpha<B>>) {
                 let cls = format!("k={}{}", if sn.starts_with('k') { "seeded" } else if sn.starts_with("2^") { "2^i" } else { sn }, if pa.in_sub { "" } else { " (outside subgroup)" });
                 let nontrivial = !cv.is_id(&pa.m) && !k.is_zero();
                 let ctx = || json!({"P": pa.name, "P_model": pa.m.json(), "scalar": sn, "k": big::hexs(k)});
+                // a point outside the prime subgroup is not an element of the scalar-field module;
+                // a deviation from the integer multiple there is kept apart from one inside
+                let kind = if pa.in_sub { "wrong-result" } else { "not-integer-multiple-outside-subgroup" };
                 let mut run = |variant: &str, f: &dyn Fn() -> B::G| {
                     out.eval(&cls, nontrivial);
-                    check::<B>(&mut out, "mul", variant, &expect, &ctx, f);
+                    check_k::<B>(&mut out, "mul", kind, variant, &expect, &ctx, f);
                 };
                 run("P * k", &|| p * s);
                 run("P * &k", &|| p * &s);
@@ -685,7 +738,7 @@ where
                         out.eval("affine-mul", !cv.is_id(&pa.m) && !k.is_zero());
                         let expect = cv.mul(&pa.m, k);
                         if m != expect {
-                            v(&mut out, ty, "affine-mul", "wrong-result", "Pa * k disagrees with the model".into(), json!({"P": pa.name, "scalar": sn, "k": big::hexs(k), "got": m.json(), "expected": expect.json()}));
+                            v(&mut out, ty, "affine-mul", if pa.in_sub { "wrong-result" } else { "not-integer-multiple-outside-subgroup" }, "Pa * k disagrees with the model".into(), json!({"P": pa.name, "scalar": sn, "k": big::hexs(k), "got": m.json(), "expected": expect.json()}));
                         }
                     }
                 }
@@ -702,11 +755,29 @@ where
 // Encodings
 // ---------------------------------------------------------------------------------------------
 
-fn reason(d: &Dec) -> &'static str {
+fn reason(d: &Dec) -> String {
     match d {
-        Dec::Ok(_) => "valid",
-        Dec::NonCanonical(_) => "non-canonical",
-        Dec::OffCurve => "off-curve",
+        Dec::Ok(_) => "valid".into(),
+        Dec::NonCanonical(why) => format!("non-canonical:{}", slug(why)),
+        Dec::OffCurve => "off-curve".into(),
+    }
+}
+
+fn slug(why: &str) -> &'static str {
+    if why.contains(">= p") {
+        "coordinate-not-reduced"
+    } else if why.contains("compression flag") {
+        "compression-flag"
+    } else if why.contains("infinity flag") || why.contains("identity flag") {
+        "identity-flag"
+    } else if why.contains("sort flag") || why.contains("sign flag") {
+        "sign-flag"
+    } else if why.contains("tag") {
+        "sec1-tag"
+    } else if why.contains("x = 0") {
+        "sign-of-zero"
+    } else {
+        "other"
     }
 }
 
@@ -714,16 +785,28 @@ fn reason(d: &Dec) -> &'static str {
 pub fn judge<G>(out: &mut CaseOut, ty: &str, c: &Codec<G>, cv: &MCurve, input: &[u8], origin: &str) {
     let spec = c.fmt.decode(cv, input);
     // expected verdict
-    let (should_accept, why) = match &spec {
+    let (should_accept, why): (bool, String) = match &spec {
         Dec::Ok(p) => {
             if c.promises_subgroup && !cv.in_subgroup(p) {
-                (false, "non-subgroup")
+                (false, "non-subgroup".into())
             } else {
-                (true, "valid")
+                (true, "valid".into())
             }
         }
         d => (false, reason(d)),
     };
+    // a verdict that rests on subgroup membership is re-derived with the affine reference law
+    // before it can blame the subject
+    let confirm_membership = |out: &mut CaseOut| {
+        if let Dec::Ok(p) = &spec {
+            if c.promises_subgroup {
+                assert_eq!(cv.in_subgroup(p), cv.in_subgroup_ref(p), "ladder and reference law disagree on subgroup membership");
+                out.counter("membership-verdicts-reconfirmed", 1);
+            }
+        }
+    };
+    // outcome classes use the coarse verdict, finding keys the precise one
+    let coarse = why.split(':').next().unwrap().to_string();
     let detail = |extra: Value| json!({"decoder": c.name, "input": hex(input), "origin": origin, "model_verdict": why, "model_note": format!("{spec:?}").chars().take(160).collect::<String>(), "extra": extra});
     let got = catch(|| (c.dec)(input));
     match got {
@@ -732,14 +815,16 @@ pub fn judge<G>(out: &mut CaseOut, ty: &str, c: &Codec<G>, cv: &MCurve, input: &
             v(out, ty, c.name, "panic", format!("decoder panicked on a {why} input: {e}"), detail(json!({})));
         }
         Ok(None) => {
-            out.eval(&format!("{ty}:{}:reject[{why}]", c.name), true);
+            out.eval(&format!("{ty}:{}:reject[{coarse}]", c.name), true);
             if should_accept {
+                confirm_membership(out);
                 v(out, ty, c.name, "rejects-valid", "checked decoder rejects a canonical encoding of a valid element".into(), detail(json!({})));
             }
         }
         Ok(Some((m, re))) => {
-            out.eval(&format!("{ty}:{}:accept[{why}]", c.name), true);
+            out.eval(&format!("{ty}:{}:accept[{coarse}]", c.name), true);
             if !should_accept {
+                confirm_membership(out);
                 v(out, ty, c.name, &format!("accepts-{why}"), format!("checked decoder accepts a {why} encoding"), detail(json!({"decoded": m.json(), "reencoded": hex(&re)})));
                 return;
             }
@@ -1032,7 +1117,7 @@ pub fn codec_tasks<B: Bind>(t: &mut Tasks, al: &Arc<Alpha<B>>, thorough: bool, s
         let n_bits = B::codecs()[ci].fmt.len(&al.cv) * 8;
         let flag_byte = B::codecs()[ci].fmt.flag_byte(&al.cv);
         let positions: Vec<usize> = (0..n_bits).filter(|b| thorough || b % 8 == 3 || Some(b / 8) == flag_byte).collect();
-        let n_chunks = if thorough { 8 } else { 2 };
+        let n_chunks = if thorough { 32 } else { 8 };
         for src in sources {
             for ch in 0..n_chunks {
                 let a = al.clone();
